@@ -267,6 +267,7 @@ int main(int argc, char **argv) {
   std::string hashfile = arg(argc, argv, "--hashfile", "");
   bool do_shrink = !flag(argc, argv, "--noshrink");
   int nsamples = atoi(arg(argc, argv, "--samples", "2").c_str());
+  bool runlog = flag(argc, argv, "--runlog");   // one "RUN <index> <trace hash> <violation>" line per run (determinism proof)
 
   // open known findings: "<id> <class> k=v ..." per line (written by bin/check from known_findings.jsonl)
   struct Known { std::string id, cls; std::map<std::string, std::string> when; };
@@ -292,6 +293,7 @@ int main(int argc, char **argv) {
     Outcome o = e->exec(p);
     watchdog_arm(0);
     runs++;
+    if (runlog) printf("RUN %ld %016llx %d\n", r, (unsigned long long)o.hash, o.violation ? 1 : 0);
     if (o.nontrivial && !o.violation) nt_hashes.insert(o.hash);
     if (runs <= nsamples) { std::string s = p.str(); for (auto &c : s) if (c == '\n') c = ';'; printf("SAMPLE %s\n", s.c_str()); }
     if (o.violation) {
